@@ -11,6 +11,7 @@ import CSD.Model.SourceText
 import CSD.Lemmas.PFCMeta
 import CSD.Lemmas.HashBlocks
 import CSD.Lemmas.HashRP
+import CSD.Lemmas.HashRPF
 
 namespace CSD.Props.C01
 open CSD CSD.PFC
@@ -126,6 +127,19 @@ theorem hashrpdac_locate_then_extract (tsize0 : Nat) (S : List Str) (hnd : S.Nod
   obtain ⟨h1, h2, h3⟩ := hash_locate_then_extract tsize0 S hnd hcap hacc s hs
   exact ⟨_, Hash.locateRP_eq gd hS g seqs st s (hS s hs), h1, h2, h3⟩
 
+/-- HASHRPF end to end (hash table + offsets into one Re-Pair coded symbol sequence + the comparison
+`extractStringAndCompareRP` with its terminator sentinel): the real `locate` returns for every member an
+ID in `[1,n]` whose `extract` is that member. -/
+theorem hashrpf_locate_then_extract (tsize0 : Nat) (S : List Str) (hnd : S.Nodup) (hcap : S.length ≤ tsize0)
+    (hacc : Hash.accepted (Hash.build tsize0 S).tsize = true)
+    (g : RePair.Grammar) (T : Nat) (cls : List Nat) (offs : Nat → Nat)
+    (st : Hash.StoresRPF (Hash.build tsize0 S) g T cls offs) (s : Str) (hs : s ∈ S) :
+    ∃ id, Hash.locateRPF (Hash.build tsize0 S) g T cls offs s = some id ∧ 1 ≤ id ∧ id ≤ S.length ∧
+      Hash.extract (Hash.build tsize0 S) id = some s := by
+  have gd := Hash.goodDict_build tsize0 S hnd hcap hacc
+  obtain ⟨h1, h2, h3⟩ := hash_locate_then_extract tsize0 S hnd hcap hacc s hs
+  exact ⟨_, Hash.locateRPF_eq gd g T cls offs st s, h1, h2, h3⟩
+
 /-- Non-vacuity of the Blocks hypotheses: four sorted strings cut into blocks of about 4 bytes. -/
 example : Hash.PartsOK 4 (fun n => n + 1) [[0x61], [0x61, 0x62], [0x62], [0x63, 0x63]] :=
   ⟨sortedLt_of_sortedStrict _ (by decide), by decide +kernel⟩
@@ -160,6 +174,9 @@ theorem models_match_source_text :
     Generated.body_Blocks_extract = SourceText.body_Blocks_extract ∧
     Generated.body_RePair_compareDAC = SourceText.body_RePair_compareDAC ∧
     Generated.body_RePair_compareRule = SourceText.body_RePair_compareRule ∧
-    Generated.body_DAC_VLS_access = SourceText.body_DAC_VLS_access := ⟨rfl, rfl, rfl, rfl, rfl, rfl, rfl, rfl, rfl, rfl, rfl, rfl, rfl, rfl, rfl, rfl, rfl, rfl⟩
+    Generated.body_DAC_VLS_access = SourceText.body_DAC_VLS_access ∧
+    Generated.body_RePair_compareRP = SourceText.body_RePair_compareRP ∧
+    Generated.body_HASHRPF_locate = SourceText.body_HASHRPF_locate ∧
+    Generated.body_Hash_insert = SourceText.body_Hash_insert := ⟨rfl, rfl, rfl, rfl, rfl, rfl, rfl, rfl, rfl, rfl, rfl, rfl, rfl, rfl, rfl, rfl, rfl, rfl, rfl, rfl, rfl⟩
 
 end CSD.Props.C01
